@@ -77,3 +77,16 @@ Print Assumptions C02_list_element_order_independent.
 Theorem C02_list_element_deleted_by_any_delete : forall l x t, In (EDel t) l -> elive (fold_left eapply l x) = false.
 Proof. exact element_deleted_by_any_delete. Qed.
 Print Assumptions C02_list_element_deleted_by_any_delete.
+
+(* list, placement: two concurrent inserts (batches) at the same place — what follows the target is older than both —
+   end up ordered by operation timestamp, the greater first, on every replica whichever it executes first.
+   [stops T k]: T is empty or its first node is not newer than k; [ins_many] is the model's remote placement
+   (insertRemoteWithTimedTypes behind the target). *)
+From Orda.Proofs Require Import ListConv.
+Theorem C02_list_concurrent_inserts_by_timestamp : forall T t1 t2 vs1 vs2,
+  ts_bounded t1 -> ts_bounded t2 -> bnodes T -> klt (key_of t2) (key_of t1) = true ->
+  stops T (key_of t1) -> stops T (key_of t2) ->
+  let N1 := mk_nodes t1 0 vs1 in let N2 := mk_nodes t2 0 vs2 in
+  ins_many (ins_many T N1) N2 = N1 ++ N2 ++ T /\ ins_many (ins_many T N2) N1 = N1 ++ N2 ++ T.
+Proof. exact concurrent_inserts_by_timestamp. Qed.
+Print Assumptions C02_list_concurrent_inserts_by_timestamp.
